@@ -31,6 +31,53 @@ def check(ctx: Ctx) -> None:
     r4(ctx)
     r5(ctx)
     kernel_lock_preferred(ctx, "C19.R6")
+    success_means_locked(ctx)
+
+
+def success_means_locked(ctx: Ctx, rid: str = "C19.R7") -> None:
+    ctx.rule(rid, "an acquisition attempt reports success only after its own lock primitive completed normally: every `return "
+             "True` of the attempt functions is dominated (normal edges) by the flock / O_EXCL open / conditional PUT, and by the "
+             "state assignment that release() and is_held() rely on", 6)
+    sites = (
+        ("file_lock.FileLock._try_acquire_once", ("fcntl.flock", "msvcrt.locking"), "self._locked"),
+        ("file_lock.FileLock._try_acquire_excl_fallback", ("os.open",), "self._locked"),
+        ("lock_provider.S3LockProvider._try_acquire", ("boto.put_object",), None),
+        ("lock_provider.S3LockProvider._try_takeover_expired", ("boto.put_object",), None),
+        ("lock_provider.S3PollingLockProvider._try_acquire", ("boto.put_object",), None),
+    )
+    for q, prims, flag in sites:
+        f = ctx.fn(q)
+        g = ctx.cfg(f)
+        dom = ctx.dom(f, NORMAL)
+        pcalls = [n for p in prims for n in ctx.calls(f, prim=p)]
+        if q.endswith("_excl_fallback"):
+            pcalls = [n for n in pcalls if isinstance(n.ast, ast.Call) and len(n.ast.args) > 1 and "O_EXCL" in norm_text(n.ast.args[1])]
+        if not pcalls:
+            raise AnalysisError(f"lock primitive vanished from {q}")
+        trues = [n for n in g.nodes if n.kind == "return" and n.id in g.reachable()
+                 and isinstance(n.ast.value, ast.Constant) and n.ast.value.value is True]  # type: ignore[union-attr]
+        ctx.ob(rid, f, "the attempt can succeed", trues[0] if trues else None, bool(trues), "", nontrivial=False, text="has-true")
+        def after_primitive(nid: int) -> bool:
+            # every path from the entry to the node (exception edges included) LEAVES one of the (alternative) primitives by a
+            # normal edge: with those edges removed the node must be unreachable
+            pset = {p.id for p in pcalls}
+            return find_path(g, g.entry, [nid], labels=ALL, edge_ok=lambda s_, d_, l_: not (s_ in pset and l_ in NORMAL)) is None
+
+        for r in trues:
+            ok = after_primitive(r.id)
+            ctx.ob(rid, f, "`return True` only after the lock primitive succeeded", r, ok,
+                   f"primitives {[p.text[:40] for p in pcalls]}: a success reported from an error path (handler) hands out a lock "
+                   "that is not held")
+            if flag:
+                sets = [n for n in g.nodes if n.kind == "stmt" and isinstance(n.ast, ast.Assign) and norm_text(n.ast.targets[0]) == flag
+                        and isinstance(n.ast.value, ast.Constant) and n.ast.value.value is True]
+                ctx.ob(rid, f, f"success records {flag} = True", r, any(s_.id in dom[r.id] for s_ in sets),
+                       "release() and is_held() act on this flag: a held lock that is not recorded is never released")
+        if flag:
+            early = [n for n in g.nodes if n.kind == "stmt" and isinstance(n.ast, ast.Assign) and norm_text(n.ast.targets[0]) == flag
+                     and isinstance(n.ast.value, ast.Constant) and n.ast.value.value is True and not after_primitive(n.id)]
+            ctx.ob(rid, f, f"{flag} is set only after the primitive succeeded", early[0] if early else None, not early, "", nontrivial=False,
+                   text="flag-after-primitive")
 
 
 def kernel_lock_preferred(ctx: Ctx, rid: str) -> None:
